@@ -1,5 +1,6 @@
 # reg and TB_COMMON are injected by lib/props.py
 reg(id="C15",
+    gen=["globals"],
     model_targets=["C15/Corr.vo"],
     proof_targets=["Props/C15.vo"],
     props_file="Props/C15.v",
